@@ -27,13 +27,16 @@ CONSTANTS Sets,        \* label-set names, e.g. {"A", "B"}
 Aspects == {"stubs", "pos", "order", "ovl"}
 \* BaseOf / DeltaOf are fixed by the instance (the harness uses the same table, see EngineInst)
 BaseOf(s) == IF s = "PA" THEN "A" ELSE IF s = "PB" THEN "B" ELSE s
-\* option keys: mx (maxPos; 0 = None), ns (nodeSpacing), alg, sw (stubWidth)
-Opt0 == [mx |-> 0, ns |-> 3, alg |-> "overlap", sw |-> 1]
+\* option keys: mx (maxPos; 0 = None), mn (minPos; -1 = None), ns (nodeSpacing), alg, sw (stubWidth), dn (density in percent)
+Opt0 == [mx |-> 0, mn |-> 0, ns |-> 3, alg |-> "overlap", sw |-> 1, dn |-> 85]
 DeltaOf(d) == CASE d = "d1" -> [mx |-> 8]
                 [] d = "d2" -> [mx |-> 0]
                 [] d = "d3" -> [ns |-> 1]
                 [] d = "d4" -> [alg |-> "simple"]
                 [] d = "d5" -> [mx |-> 14, sw |-> 0]
+                [] d = "d6" -> [mn |-> -1]
+                [] d = "d7" -> [mn |-> 2, mx |-> 12]
+                [] d = "d8" -> [dn |-> 50, mx |-> 10]
                 [] OTHER -> [mx |-> 8]
 Merge(o, dl) == [k \in DOMAIN o |-> IF k \in DOMAIN dl THEN dl[k] ELSE o[k]]
 
